@@ -360,6 +360,10 @@ row(props=["C01"], func=FL + "getMethodMapName", params=["method"], kind="depend
     what="two declarations never share an entry of the per-class method table: the key identifies a declaration by name and start position (line and column)")
 row(props=["C12"], func=API + "(JavaAPIListener).EnterAnnotation", params=["s", "ctx"], kind="callarg", callee=API + "addApiMethod", arg=0, total=2, index=1, each={"as": "pair"},
     expr='call("strings.Trim", %s, "{}")' % PAIRTXT, what="method= names the verb in plain or in array form: method = RequestMethod.GET and method = {RequestMethod.GET}")
+IDL = "pkg/infrastructure/ast/ast_java/java_identify."
+row(props=["C18"], func=IDL + "(JavaIdentifierListener).EnterExpression", params=["s", "ctx"], kind="emits", target="globalstore:" + IDL + "currentMethod.IsReturnNull", tag={}, total=1,
+    when='String(call("reflect.TypeOf", GetParent(ctx))) == "*parser.StatementContext" && lower(GetText(GetChild(GetParent(ctx), 0))) == "return" && contains(GetText(ctx), "null")',
+    fields={"value": "true"}, what="a method is nullable as soon as one of its return statements returns null: the flag is only ever set, a later return does not clear it")
 
 json.dump({"e5": rows}, open(os.path.join(os.path.dirname(os.path.dirname(os.path.abspath(__file__))), "spec", "e5.json"), "w"), indent=1, ensure_ascii=False)
 print(len(rows), "rows")
